@@ -14,6 +14,7 @@ RULE = (
     "get_plate, observed/unobserved split, to_screen, unique-condition filter, and in-place changes of the parent between them (set_observed on a plate or on arbitrary unobserved rows, Plate.merge of plates of equal or different observation status, so plates may be partly observed); a second screen for the cross-parent refusal; random int columns for "
     "select_unique_zipped_numpy_arrays vs a dict reference; once per run the unique filter on every three-row view [X, Y, X] of a full two-slot design (2 samples x (T+1)^2 conditions, T=5 / 7) and, for small screens, on every view of three rows. Non-trivial = history contains a nested subset and a union and has depth>=3. distinct = distinct case JSON."
     ' Also: views at id-width boundaries (highest id 2**8-1, 2**16-1 and neighbours, with controls).'
+    ' Also: unions of 255 .. 600 views sharing one experiment; 3- and 4-slot conditions at table sizes 2**k - 2 .. 2**k; one history in a hundred has 60..100 operations.'
 )
 ASSUMPTIONS = [
     "the model of a view is the sorted list of parent row indices; ids of a materialised screen are not asserted (Screen.combine/to_screen document that ids may change)",
@@ -23,7 +24,7 @@ ASSUMPTIONS = [
 
 def budgets(tier):
     if tier == "quick":
-        return {"examples": 1500, "max_s": 80, "shrink_s": 20, "shards": 1}
+        return {"examples": 1500, "max_s": 110, "shrink_s": 20, "shards": 1}
     return {"examples": 2500, "max_s": 700, "shrink_s": 90, "shards": 16}
 
 
@@ -35,7 +36,7 @@ def _case(draw):
     sc = draw(S.screen_case(min_rows=1, max_rows=12, obs=S.finite_obs, max_pool=3))
     n = len(sc["rows"])
     ops = []
-    for _ in range(draw(st.integers(3, 12))):
+    for _ in range(draw(st.one_of(*([st.integers(3, 12)] * 99 + [st.integers(60, 100)])))):  # one history in a hundred is long (accumulated state: caches, growing buffers)
         op = draw(st.sampled_from(OPS))
         mask_kind = draw(st.sampled_from(["any", "any", "empty", "full"]))
         if mask_kind == "any":
@@ -100,6 +101,13 @@ def exhaustive(tier):
     for n in [255, 256, 257, 65536] + ([65535, 65537, 32768, 32767] if tier != "quick" else []):
         for axis in ("treatments", "samples"):
             yield {"kind": "width", "axis": axis, "n": n}
+    # the same boundaries with three and four treatment slots (a condition then spans up to 5 x 16 bits)
+    # (a packed key has base n, n + 1 or n + 2 depending on how the control and the table size are counted: all three neighbours)
+    for n, ar in [(254, 4), (255, 4), (256, 4), (65534, 4), (65535, 4), (65536, 4), (65534, 3), (2046, 3)] + ([(65537, 4), (65536, 3), (2047, 3), (2048, 3), (4094, 4), (4095, 4), (2**13 - 2, 4), (2**13 - 1, 4), (2**21 - 2, 3)] if tier != "quick" else []):
+        yield {"kind": "width", "axis": "treatments", "n": n, "arity": ar}
+    # unions of many views in one call: 255 .. 600 operands that all share one reference experiment
+    for m in [255, 256, 257] + ([300, 511, 512, 513, 600] if tier != "quick" else [512]):
+        yield {"kind": "many_operands", "m": m}
 
 
 def _check_xyx(case):
@@ -131,10 +139,71 @@ def _check_xyx(case):
     return {"nontrivial": True, "labels": ["xyx-views"], "counts": {"xyx_views": checked}}
 
 
+def _check_width_wide(case):
+    """conditions with 3 or 4 treatment slots on a screen with exactly n treatments: experiments that differ in the sample only, in
+    one slot only (highest id / control / lowest id), or in the order of the slots"""
+    from batchie.data import Screen, filter_dataset_to_unique_treatments
+
+    nt, ar, ns = case["n"], case["arity"], 5
+    width = len(str(nt))
+    tname = lambda t: "ctl" if t < 0 else "t%0*d" % (width, t)
+    top = nt - 1
+    cover = [tuple(min(top, r * ar + c) for c in range(ar)) for r in range((nt + ar - 1) // ar)]  # every treatment id occurs
+    rows = [(r % ns,) + t for r, t in enumerate(cover)]
+    base = len(rows)
+    pats = [(top,) * ar, (0,) * ar, (-1,) * ar, (top, 0) * (ar // 2) + (top,) * (ar % 2), (0, top) * (ar // 2) + (0,) * (ar % 2), (top,) + (-1,) * (ar - 1), (-1,) * (ar - 1) + (top,), (top - 1,) + (top,) * (ar - 1), (1, 2, 3, 4)[:ar], (top, top - 1, 1, 0)[:ar]]
+    extras = [(s_,) + p_ for p_ in pats for s_ in (0, 1, ns - 1)]
+    rows += extras + extras[:4]
+    arr = np.array(rows)
+    screen = Screen(treatment_names=np.array([[tname(t) for t in r[1:]] for r in rows]), treatment_doses=np.where(arr[:, 1:] < 0, 0.0, 1.0), observations=np.zeros(len(rows)), observation_mask=np.zeros(len(rows), dtype=bool), sample_names=np.array(["s%d" % r[0] for r in rows]), plate_names=np.array(["p%d" % (i % 3) for i in range(len(rows))]), control_treatment_name="ctl")
+    sid, tid = np.asarray(screen.sample_ids), np.asarray(screen.treatment_ids)
+    require(int(tid.max()) == top and int(tid.min()) == -1, "harness", "unexpected id range of the boundary screen")
+    key = lambda i: (int(sid[i]),) + tuple(int(x) for x in tid[i])
+    ext = list(range(base, len(rows)))
+    views = [ext, list(range(len(rows)))] + [[i, j] for i in ext for j in ext if i < j]
+    for v in views:
+        sel = np.zeros(len(rows), dtype=bool)
+        sel[v] = True
+        got = np.where(np.asarray(filter_dataset_to_unique_treatments(screen.subset(sel)).selection_vector))[0].tolist()
+        ks = [key(i) for i in got]
+        want = {key(i) for i in v}
+        require(set(got) <= set(v) and len(ks) == len(set(ks)) and set(ks) == want, "unique.width_boundary", lambda: "%d treatments, %d slots: the unique filter on a view of %d experiments with %d distinct conditions keeps %d experiments with conditions %r%s" % (nt, ar, len(v), len(want), len(got), ks[:4], "" if len(v) > 4 else " (the view's conditions: %r)" % sorted(want)))
+    return {"nontrivial": True, "labels": ["width-boundary:treatments:arity%d" % ar], "counts": {"width_views": len(views)}}
+
+
+def _check_many_operands(case):
+    from batchie.data import ScreenSubset
+
+    m = case["m"]
+    n = m + 3
+    rows = [{"s": "s%d" % (i % 2), "p": "p%d" % (i % 3), "t": ["t%d" % (i % 5), "t%d" % ((i + 1 + i // 5 % 3) % 5)], "d": [1.0, 2.0], "o": 0.5} for i in range(n)]
+    screen = S.build_screen({"arity": 2, "control": "ctl", "rows": rows, "observed": []})
+    ops = []
+    for j in range(m):
+        sel = np.zeros(n, dtype=bool)
+        sel[0] = True  # the reference experiment, in every operand
+        sel[1 + j] = True
+        if j % 7 == 0:
+            sel[n - 1] = True
+        ops.append(screen.subset(sel))
+    before = [np.asarray(o.selection_vector).copy() for o in ops]
+    want = np.logical_or.reduce(before)
+    got = np.asarray(ScreenSubset.concat(ops).selection_vector)
+    require(np.array_equal(got, want), "concat.many_operands", lambda: "the union of %d views (every one contains experiment 0) selects %d experiments, their set union has %d; missing %r, extra %r" % (m, int(got.sum()), int(want.sum()), np.flatnonzero(want & ~got).tolist()[:5], np.flatnonzero(got & ~want).tolist()[:5]))
+    acc = ops[0]
+    for o in ops[1:]:
+        acc = acc.combine(o)
+    require(np.array_equal(np.asarray(acc.selection_vector), want), "combine.many_operands", lambda: "%d views folded with combine() select %d experiments, their set union has %d" % (m, int(np.sum(acc.selection_vector)), int(want.sum())))
+    require(all(np.array_equal(np.asarray(o.selection_vector), b) for o, b in zip(ops, before)), "concat.operands_unchanged", "an operand of a long union was changed")
+    return {"nontrivial": True, "labels": ["union-of-many-views"], "counts": {"operands": m}}
+
+
 def _check_width(case):
     from batchie.data import Screen, filter_dataset_to_unique_treatments
 
     n, axis = case["n"], case["axis"]
+    if case.get("arity", 2) != 2:
+        return _check_width_wide(case)
     nt, ns = (n, 3) if axis == "treatments" else (4, n)
     width = len(str(max(nt, ns)))
     tname = lambda t: "ctl" if t < 0 else "t%0*d" % (width, t)
@@ -170,6 +239,8 @@ def check_case(case):
         return _check_xyx(case)
     if case.get("kind") == "width":
         return _check_width(case)
+    if case.get("kind") == "many_operands":
+        return _check_many_operands(case)
     from batchie.common import select_unique_zipped_numpy_arrays
     from batchie.data import ScreenSubset, filter_dataset_to_unique_treatments
 
